@@ -24,6 +24,9 @@ CHECKS = {
  "C19": ("property-based testing (rapid) over job counts x GOMAXPROCS x fault sets x gate schedules, with build-tag hooks perturbing the interleaving; black-box oracle on Persist's result and the directory; -race in thorough",
          "Generated schedules and fault sets drive Generator.Persist through the exported API with a gating post-processor; the oracle checks success/error, exact directory content, at-most-once processing, nothing in flight after return and a deadlock watchdog. Interleavings are perturbed (gates, yields), not enumerated: detection of an ordering bug is probabilistic, silence on correct code is deterministic.",
          "Trusted: the Go runtime scheduler for perturbation; the oracle never depends on hook events."),
+ "C14": ("property-based testing (rapid) against an independent reference path-set semantics + metamorphic permutation/regrouping + JSON round trip; native fuzzing of path strings and JSON in thorough",
+         "Generated descriptors, path lists (valid / conflicting / invalid by construction / byte soup), query sequences and JSON documents; oracles: no panic on any input, exact query answers on conflict-free sets from a reference trie, invariance under order and grouping, error on the invalid classes, JSON round trip answering identically, stable JSON text.",
+         "Trusted: the reference semantics (validated against the repository's own test vectors without calling the library)."),
 }
 NOT_YET = "check not built yet (work in progress; the technique applies, see DESIGN.md)"
 
